@@ -35,7 +35,14 @@ RULE = ("'hostile' (random): a grader spec (vlib/gspec.py; String, Formula, Nume
         "summation limits ...) on fixed graders must raise exactly the library's specific class for that problem, and "
         "pass the same differential. 'families' (random): Formula / Numerical / Matrix graders given a generated "
         "formula of any length broken in a known way (trailing / leading / doubled operator -> UnableToParse; "
-        "unclosed / unopened bracket -> UnbalancedBrackets): that class must be raised. Non-trivial = the debug-off call raised; distinct by spec. Buckets by grader kind x twin "
+        "unclosed / unopened bracket -> UnbalancedBrackets): that class must be raised. 'undefined-names' (random): "
+        "Formula / Numerical / Matrix graders whose variables, user functions and numbered variables are drawn from every "
+        "documented name shape (primes, brace and tensor indices), metric suffixes on or off, and a submission that "
+        "contains exactly one name the grader does not know (case variant, added prime, changed index, unrelated name, "
+        "case variant of a default function / constant, a variable called as a function, an unknown or case-variant "
+        "suffix) at top level, in a cancelling term, an exponent, a function argument or an array entry: must raise "
+        "exactly UndefinedVariable / UndefinedFunction with a message naming the offender - judged against the "
+        "configuration, because the debug twin would fail identically. Non-trivial = the debug-off call raised; distinct by spec. Buckets by grader kind x twin "
         "exception type.")
 ASSUMPTIONS = ["attempt is an int (or omitted when no attempt credit is configured, rarely omitted otherwise); expect is None",
                "SumGrader limit boxes only receive text from a bounded pool (|limit| <= 2000, infty_val <= 200): the docs "
@@ -46,8 +53,11 @@ ASSUMPTIONS = ["attempt is an int (or omitted when no attempt credit is configur
                "a call is given 30 s (normal: milliseconds; slowest seen is recorded in maxima) before it violates the "
                "termination clause; the elapsed time is also measured because a timeout exception raised inside the "
                "guarded region would itself be replaced by the generic error",
-               "the atheris campaign of the plan (optional amplifier of the thorough tier) is not implemented; the "
-               "thorough tier runs Hypothesis only"]
+               "thorough tier only: part 'hostile-fuzz' is a coverage-guided atheris/libFuzzer campaign over the 'hostile' "
+               "strategy and oracle (vlib/fuzzworker.py); if atheris cannot be imported the part is skipped and the "
+               "evidence notes fuzz_unavailable",
+               "'undefined-names': the grader's own answer must be accepted (else the case is discarded); the offending "
+               "name is in no scope of the grader by construction"]
 REQUIRED = {'twin/unanticipated': 100, 'twin/domain-error': 100, 'twin/shape-error': 40, 'nontext/refused': 300,
             'twin/parse-error': 200, 'twin/unbalanced': 50, 'twin/undefined-name': 100, 'twin/config-error': 30,
             'message/line-breaks-rendered': 50, 'returned': 500, 'generic/list-form': 10, 'generic/single-form': 50,
@@ -56,6 +66,8 @@ REQUIRED = {'twin/unanticipated': 100, 'twin/domain-error': 100, 'twin/shape-err
 for _k in gspec.KINDS:
     REQUIRED['raised/' + _k] = 30
     REQUIRED['nontext/' + _k] = 15
+REQUIRED.update({'undefined/did-you-mean-with-braces': 30, 'undefined/name-with-braces': 100, 'undefined/suffix': 30,
+                 'undefined/func-case': 20, 'undefined/numbered-case': 6})
 REQUIRED.update({'nontext-kind/text-where-list-required': 25, 'nontext-kind/list-where-text-required': 100,
                  'nontext-kind/nested-list': 30, 'nontext-kind/list-with-one-non-text': 30})
 
@@ -467,6 +479,132 @@ def judge_anchor(spec, rec):
     return {'raised': type(e).__name__}
 
 
+
+# ----------------------------------------------------------------------------------------------------
+# anticipated problem, generated: a name the grader does not know (judged against the configuration, not the twin)
+
+UN_VARS = ['x', 'y2', 'x_1', 'a_b', 'T_{1}', 'T_{-2}^{ab}', 'U^{3}', "x'", "w''", 'm_{e}', 'Q_{ab}^{cd}', 'zq', 'Rho', 'kB',
+           'v_{0}', 'L_{12}', 'phi_{n}^{m}', 'B_x']
+UN_FUNCS = ['f', 'g_{1}', "h'", 'F_{ab}', 'Gq', 'sq_{2}^{x}', 'myfun']
+UN_UNRELATED = ['unk', 'Zed', 'q_{9}', "nn'", 'W_{a}^{b}']
+UN_SUFFIX_BAD = ['K', 'g', 't', 'N', 'P', 'U', 'q', 'd']      # case variants of metric suffixes and unknown letters
+DEFAULT_NAMES = {'e', 'i', 'j', 'pi', 'infty'}
+
+
+def _case_variant(draw, name):
+    letters = [k for k, ch in enumerate(name) if ch.isalpha()]
+    ks = draw(st.lists(st.sampled_from(letters), min_size=1, max_size=len(letters), unique=True))
+    return ''.join(ch.swapcase() if k in ks else ch for k, ch in enumerate(name))
+
+
+@st.composite
+def strat_undefined(draw, tier):
+    kind = draw(st.sampled_from(['Formula', 'Formula', 'Matrix', 'Numerical']))
+    nv = draw(st.integers(1, 4))
+    variables = draw(st.lists(st.sampled_from(UN_VARS), min_size=nv, max_size=nv, unique=True)) if kind != 'Numerical' else []
+    funcs = draw(st.lists(st.sampled_from(UN_FUNCS), min_size=0, max_size=2, unique=True))
+    numbered = draw(st.sampled_from([[], [], ['a'], ['a', 'cx']])) if kind != 'Numerical' else []
+    metric = draw(st.booleans())
+    kw = {'variables': variables, 'user_functions': {f: {'$fn': 'sq'} for f in funcs}, 'numbered_vars': numbered,
+          'metric_suffixes': metric}
+    if kind == 'Numerical':
+        kw = {'user_functions': kw['user_functions'], 'metric_suffixes': metric}
+    if kind == 'Matrix':
+        kw['max_array_dim'] = 2
+    known = list(variables) + ['%s_{%d}' % (h, n) for h in numbered for n in (0, 1, 12)]
+    terms = [draw(st.sampled_from(known))] if known and draw(st.booleans()) else []
+    if funcs and draw(st.booleans()):
+        terms.append('%s(2)' % draw(st.sampled_from(funcs)))
+    terms.append(draw(st.sampled_from(['1', '2.5', '3k' if metric else '3', 'sin(1)'])))
+    answer = '+'.join(terms)
+    kw['answers'] = answer
+    # the offender
+    what = draw(st.sampled_from(['var-case', 'var-prime', 'var-index', 'var-unrelated', 'func-case', 'func-unrelated',
+                                 'func-is-variable', 'numbered-case', 'numbered-other-head', 'suffix', 'default-func-case',
+                                 'default-const-case']))
+    cls = 'UndefinedVariable'
+    off = None
+    if what == 'var-case' and variables:
+        off = _case_variant(draw, draw(st.sampled_from(variables)))
+    elif what == 'var-prime' and variables:
+        off = draw(st.sampled_from(variables)) + "'"
+    elif what == 'var-index' and variables:
+        v = draw(st.sampled_from(variables))
+        off = v.replace('1', '7').replace('{e}', '{p}').replace('{ab}', '{ba}').replace('{0}', '{00}') if any(
+            t in v for t in ('1', '{e}', '{ab}', '{0}')) else (v + '_{2}' if v.isalnum() else v + "'")
+    elif what == 'var-unrelated':
+        off = draw(st.sampled_from(UN_UNRELATED))
+    elif what == 'numbered-case' and numbered:
+        off = _case_variant(draw, '%s_{%d}' % (draw(st.sampled_from(numbered)), draw(st.sampled_from([0, 1, 12, 3]))))
+    elif what == 'numbered-other-head' and numbered:
+        off = 'b_{%d}' % draw(st.sampled_from([0, 1, 12]))
+    elif what == 'default-const-case':
+        off = draw(st.sampled_from(['PI', 'Pi', 'INFTY']))
+    elif what == 'func-case' and funcs:
+        off, cls = _case_variant(draw, draw(st.sampled_from(funcs))) + '(2)', 'UndefinedFunction'
+    elif what == 'func-unrelated':
+        off, cls = draw(st.sampled_from(['unk(2)', "Gq'(1)", 'q_{9}(3)', 'ff(1,2)'])), 'UndefinedFunction'
+    elif what == 'func-is-variable' and variables:
+        off, cls = draw(st.sampled_from(variables)) + '(2)', 'UndefinedFunction'
+    elif what == 'default-func-case':
+        off, cls = draw(st.sampled_from(['Sin(1)', 'COS(1)', 'Sqrt(4)', 'LN(2)', 'Abs(1)'])), 'UndefinedFunction'
+    elif what == 'suffix':
+        if metric:
+            off = '2' + draw(st.sampled_from(UN_SUFFIX_BAD + (variables[:1] if variables and len(variables[0]) == 1 else [])))
+        else:
+            off = '2' + draw(st.sampled_from(['k', 'M', 'u', 'K', 'q']))
+        cls = 'UndefinedFunction'
+    if off is None:
+        what, off = 'var-unrelated', draw(st.sampled_from(UN_UNRELATED))
+    name = off.split('(')[0] if '(' in off else (off[1:] if what == 'suffix' else off)
+    scope_v = set(variables) | DEFAULT_NAMES | {'%s_{%d}' % (h, n) for h in numbered for n in range(-20, 100)}
+    if '(' not in off and what != 'suffix' and name in scope_v:
+        what, off, name, cls = 'var-unrelated', 'unk', 'unk', 'UndefinedVariable'
+    if '(' in off and name in funcs:
+        what, off, name, cls = 'func-unrelated', 'unk(2)', 'unk', 'UndefinedFunction'
+    place = draw(st.sampled_from(['{a}+{o}', '{o}', '{a}+0*{o}', '({a})*{o}^0', 'sin({o})+{a}', '{a}-{o}+{o}', '2^({o})+{a}'] +
+                                 (['[{a},{o}]'] if kind == 'Matrix' else [])))
+    inp = place.format(a=answer, o=off)
+    return {'kind': kind, 'g': {'$g': kind + 'Grader', 'kw': kw}, 'input': inp, 'cls': cls, 'what': what, 'name': name,
+            'seed': draw(st.integers(0, 10 ** 6))}
+
+
+def judge_undefined(spec, rec):
+    g, inp, kind = spec['g'], spec['input'], spec['kind']
+
+    def make():
+        return gspec.build(g, debug=False), gspec.build(g, debug=True)
+    try:
+        g0, _ = make()
+    except (MITxError, SchemaError) as e:
+        raise Violation('undefined/valid-config-refused', '%s: %s' % (type(e).__name__, str(e)[:200]))
+    # control: the author's own answer is accepted by this grader (the configuration is sound)
+    set_seed(spec['seed'])
+    st0, val = call(g0, None, g['kw']['answers'])
+    if st0 != 'ok' or val.get('ok') is not True:
+        raise Discard('undefined/answer-not-accepted')
+    status, e = differential(rec, make, inp, {}, spec['seed'], kind, False)
+    if status != 'raised':
+        raise Violation('undefined/graded', '%s graded %r although %r is not defined' % (g['$g'], inp, spec['name']))
+    if type(e).__name__ != spec['cls']:
+        raise Violation('anchor/class-not-kept/' + spec['cls'], '%s(variables=%r, functions=%r, numbered=%r) on %r (%s): '
+                        'expected the specific error %s naming %r, got %s: %s' % (
+                            g['$g'], g['kw'].get('variables'), sorted(g['kw']['user_functions']),
+                            g['kw'].get('numbered_vars'), inp, spec['what'], spec['cls'], spec['name'],
+                            type(e).__name__, str(e)[:200]))
+    if ("'%s'" % spec['name']) not in str(e) and spec['name'] not in str(e):
+        raise Violation('undefined/message-does-not-name-it', '%s on %r: message %r does not mention %r' % (
+            g['$g'], inp, str(e)[:200], spec['name']))
+    rec.cls('undefined/' + spec['what'])
+    if '{' in spec['name']:
+        rec.cls('undefined/name-with-braces')
+    if 'did you mean' in str(e):
+        rec.cls('undefined/did-you-mean')
+        if '{' in str(e).split('did you mean')[1]:
+            rec.cls('undefined/did-you-mean-with-braces')
+    return {'raised': type(e).__name__, 'msg': str(e)[:120]}
+
+
 # ----------------------------------------------------------------------------------------------------
 # non-text / wrongly nested input objects
 
@@ -623,4 +761,9 @@ PARTS = [
          budget={'quick': 1200, 'thorough': 20000}),
     Part('nontext', 'hyp', judge_nontext, strategy=lambda tier: strat_nontext(tier),
          budget={'quick': 1500, 'thorough': 30000}),
+    Part('undefined-names', 'hyp', judge_undefined, strategy=lambda tier: strat_undefined(tier),
+         budget={'quick': 1600, 'thorough': 40000}),
+    # coverage-guided (atheris/libFuzzer over the same structured strategy and oracle; thorough tier only)
+    Part('hostile-fuzz', 'fuzz', judge_hostile, strategy=lambda tier: strat_hostile(tier),
+         budget={'quick': 0, 'thorough': 320000}),
 ]
